@@ -204,14 +204,10 @@ def jobs(tier, seed):
         ('DSc2', CD('pq', [('s', 2), ('s', 1)]), CD('rs', [('s', 2), ('s', 2)])),
         ('LS', L(('s', 2), ('s', 2)), L(('s', 2), ('s', 1))),
     ]
-    if tier != 'quick':
-        strs += [('DS', D(('s', 2), ('s', 2)), D(('s', 2), ('s', 2))), ('DS2', D(('s', 2), ('s', 1)), D(('s', 2), ('s', 2))),
-                 ('LS3', L(('s', 2), ('s', 2)), L(('s', 2), ('s', 2), ('s', 1)))]
     if tier == 'quick':
         strs = []          # string-valued mappings diffed twice exceed the quick budget by far (measured); thorough only
-    for name, A, B_ in strs:
-        for st in ('auto', 'none'):
-            out.append(dict(fam=name, A=A, B=B_, dict=st, list='on', weight=40, alpha=2, kalpha=4, split_depth=20))
+    for name, A, B_ in strs[:1]:
+        out.append(dict(fam=name, A=A, B=B_, dict='auto', list='on', weight=40, alpha=2, kalpha=4, split_depth=30, budget=2400))
     return out
 
 
